@@ -103,6 +103,10 @@ def gen_scenario(rng, small=False):
             c["pieces"] = sorted(rng.sample(range(1, total), rng.choice([1, 2, 5])))
         if rng.random() < 0.3:
             c["pingpong"] = True
+        elif adj.get("channel_request_lookahead", 0) == 0 and rng.random() < 0.25:
+            # a client that half-closes after its pipeline still gets every response (without
+            # look-ahead the server does not look at the socket while work or output is pending)
+            c["half_close"] = True
         if rng.random() < 0.4:
             c["send_caps"] = rng.choice([[400, 0], [100], [0, -1], [3000, 50, 0]])
         conns.append(c)
@@ -147,7 +151,7 @@ def plan(tier, seed):
         specs.append({"mode": "real", "seed": seed * 977 + i, "n": 12 if tier == "quick" else 40})
     for s in range(max(0, nenum - len(DIRECTED))):
         for p in range(parts):
-            specs.append({"mode": "enum", "gen_seed": seed * 7 + s, "part": p, "parts": parts, "cap": None})
+            specs.append({"mode": "enum", "gen_seed": seed * 7 + s, "part": p, "parts": parts, "cap": 4000})
     return specs
 
 
@@ -216,6 +220,20 @@ def judge(scn, o):
             tolerated = last.get("k") in ("short", "raise1") and len(finals) >= len(expected)
             if not tolerated:
                 out.append(("wire-unparseable", f"conn {cid}: {werr}"))
+        # interim responses are bytes on the wire too: at most one, and only in front of
+        # the final response of a 1.1 request that asked for it
+        nint = 0
+        j = 0
+        for r in resps:
+            if r["interim"]:
+                nint += 1
+                continue
+            rq = reqs[expected[j]] if j < len(expected) else {}
+            allowed = 1 if (rq.get("expect") and rq.get("v", "1.1") == "1.1") else 0
+            if nint > allowed:
+                out.append(("stray-interim-response", f"conn {cid}: {nint} interim response(s) in front of response {j}, at most {allowed} expected"))
+            nint = 0
+            j += 1
         for j, r in enumerate(finals):
             if j >= len(expected):
                 out.append(("extra-response", f"conn {cid}: response {j} beyond the expected {len(expected)}"))
